@@ -7,7 +7,9 @@ use std::panic::{catch_unwind, AssertUnwindSafe};
 use std::sync::atomic::{AtomicUsize, Ordering};
 use std::sync::{Arc, Mutex};
 use std::time::Duration;
-use stretto::{AsyncCache, AsyncCacheBuilder, Cache, CacheBuilder, CacheCallback, Coster, Item, KeyBuilder, UpdateValidator};
+#[cfg(feature = "async_flavour")]
+use stretto::{AsyncCache, AsyncCacheBuilder};
+use stretto::{Cache, CacheBuilder, CacheCallback, Coster, Item, KeyBuilder, UpdateValidator};
 use stretto_sim_rt::obs::Obs;
 use stretto_sim_rt::rt;
 
@@ -460,6 +462,7 @@ fn obs_sink(o: Obs) {
 // ------------------------------------------------------------------------------------------
 
 pub type SyncC = Cache<u64, Val, HKb, HCoster, HValidator, HCallback, SeedState>;
+#[cfg(feature = "async_flavour")]
 pub type AsyncC = AsyncCache<u64, Val, HKb, HCoster, HValidator, HCallback, SeedState>;
 
 pub trait Api: Send + Sync {
@@ -753,6 +756,7 @@ mod sync_impl {
     }
 }
 
+#[cfg(feature = "async_flavour")]
 mod async_impl {
     use super::*;
     type SelfTy = AsyncC;
@@ -1008,6 +1012,7 @@ macro_rules! typed_api {
 macro_rules! typed_int {
     ($sname:ident, $aname:ident, $t:ty) => {
         typed_api!($sname, Cache, CacheBuilder, $t, stretto::TransparentKeyBuilder<$t>, stretto::TransparentKeyBuilder::<$t>::default(), |k: u64| k as $t, |k| k, [], |b: CacheBuilder<$t, Val, stretto::TransparentKeyBuilder<$t>, HCoster, HValidator, HCallback, SeedState>| b.finalize());
+        #[cfg(feature = "async_flavour")]
         typed_api!($aname, AsyncCache, AsyncCacheBuilder, $t, stretto::TransparentKeyBuilder<$t>, stretto::TransparentKeyBuilder::<$t>::default(), |k: u64| k as $t, |k| k, [async], |b: AsyncCacheBuilder<$t, Val, stretto::TransparentKeyBuilder<$t>, HCoster, HValidator, HCallback, SeedState>| b.finalize(async_spawner));
     };
 }
@@ -1051,10 +1056,13 @@ fn borrow_arc(k: &std::sync::Arc<String>) -> &String {
 }
 // thin-pointer key types (one machine word) looked up through the pointee
 typed_api!(TBoxS, Cache, CacheBuilder, Box<String>, stretto::DefaultKeyBuilder<Box<String>>, stretto::DefaultKeyBuilder::<Box<String>>::default(), box_key, borrow_box, [], |b: CacheBuilder<Box<String>, Val, stretto::DefaultKeyBuilder<Box<String>>, HCoster, HValidator, HCallback, SeedState>| b.finalize());
+#[cfg(feature = "async_flavour")]
 typed_api!(TBoxA, AsyncCache, AsyncCacheBuilder, Box<String>, stretto::DefaultKeyBuilder<Box<String>>, stretto::DefaultKeyBuilder::<Box<String>>::default(), box_key, borrow_box, [async], |b: AsyncCacheBuilder<Box<String>, Val, stretto::DefaultKeyBuilder<Box<String>>, HCoster, HValidator, HCallback, SeedState>| b.finalize(async_spawner));
 typed_api!(TArcS, Cache, CacheBuilder, std::sync::Arc<String>, stretto::DefaultKeyBuilder<std::sync::Arc<String>>, stretto::DefaultKeyBuilder::<std::sync::Arc<String>>::default(), arc_key, borrow_arc, [], |b: CacheBuilder<std::sync::Arc<String>, Val, stretto::DefaultKeyBuilder<std::sync::Arc<String>>, HCoster, HValidator, HCallback, SeedState>| b.finalize());
+#[cfg(feature = "async_flavour")]
 typed_api!(TArcA, AsyncCache, AsyncCacheBuilder, std::sync::Arc<String>, stretto::DefaultKeyBuilder<std::sync::Arc<String>>, stretto::DefaultKeyBuilder::<std::sync::Arc<String>>::default(), arc_key, borrow_arc, [async], |b: AsyncCacheBuilder<std::sync::Arc<String>, Val, stretto::DefaultKeyBuilder<std::sync::Arc<String>>, HCoster, HValidator, HCallback, SeedState>| b.finalize(async_spawner));
 typed_api!(TStrS, Cache, CacheBuilder, String, stretto::DefaultKeyBuilder<String>, stretto::DefaultKeyBuilder::<String>::default(), str_key, borrow_str, [], |b: CacheBuilder<String, Val, stretto::DefaultKeyBuilder<String>, HCoster, HValidator, HCallback, SeedState>| b.finalize());
+#[cfg(feature = "async_flavour")]
 typed_api!(TStrA, AsyncCache, AsyncCacheBuilder, String, stretto::DefaultKeyBuilder<String>, stretto::DefaultKeyBuilder::<String>::default(), str_key, borrow_str, [async], |b: AsyncCacheBuilder<String, Val, stretto::DefaultKeyBuilder<String>, HCoster, HValidator, HCallback, SeedState>| b.finalize(async_spawner));
 
 fn build_typed(cfg: &Cfg, ty: &str, cb: HCallback) -> Result<Box<dyn Api>, String> {
@@ -1064,35 +1072,49 @@ fn build_typed(cfg: &Cfg, ty: &str, cb: HCallback) -> Result<Box<dyn Api>, Strin
     MASK_CONFLICT.store(matches!(ty, "string" | "boxstr" | "arcstr"), Ordering::SeqCst);
     match (ty, s) {
         ("i8", true) => TI8s::build(cfg, cb),
+        #[cfg(feature = "async_flavour")]
         ("i8", false) => TI8a::build(cfg, cb),
         ("i16", true) => TI16s::build(cfg, cb),
+        #[cfg(feature = "async_flavour")]
         ("i16", false) => TI16a::build(cfg, cb),
         ("i32", true) => TI32s::build(cfg, cb),
+        #[cfg(feature = "async_flavour")]
         ("i32", false) => TI32a::build(cfg, cb),
         ("i64", true) => TI64s::build(cfg, cb),
+        #[cfg(feature = "async_flavour")]
         ("i64", false) => TI64a::build(cfg, cb),
         ("isize", true) => TIszs::build(cfg, cb),
+        #[cfg(feature = "async_flavour")]
         ("isize", false) => TIsza::build(cfg, cb),
         ("u8", true) => TU8s::build(cfg, cb),
+        #[cfg(feature = "async_flavour")]
         ("u8", false) => TU8a::build(cfg, cb),
         ("u16", true) => TU16s::build(cfg, cb),
+        #[cfg(feature = "async_flavour")]
         ("u16", false) => TU16a::build(cfg, cb),
         ("u32", true) => TU32s::build(cfg, cb),
+        #[cfg(feature = "async_flavour")]
         ("u32", false) => TU32a::build(cfg, cb),
         ("u64", true) => TU64s::build(cfg, cb),
+        #[cfg(feature = "async_flavour")]
         ("u64", false) => TU64a::build(cfg, cb),
         ("usize", true) => TUszs::build(cfg, cb),
+        #[cfg(feature = "async_flavour")]
         ("usize", false) => TUsza::build(cfg, cb),
         ("string", true) => TStrS::build(cfg, cb),
+        #[cfg(feature = "async_flavour")]
         ("string", false) => TStrA::build(cfg, cb),
         ("boxstr", true) => TBoxS::build(cfg, cb),
+        #[cfg(feature = "async_flavour")]
         ("boxstr", false) => TBoxA::build(cfg, cb),
         ("arcstr", true) => TArcS::build(cfg, cb),
+        #[cfg(feature = "async_flavour")]
         ("arcstr", false) => TArcA::build(cfg, cb),
         _ => Err(format!("unknown key type {}", ty)),
     }
 }
 
+#[cfg(feature = "async_flavour")]
 fn async_spawner(fut: futures::future::BoxFuture<'static, ()>) {
     // the two background futures: first the policy worker, then the cache processor
     static N: AtomicUsize = AtomicUsize::new(0);
@@ -1218,7 +1240,10 @@ pub fn build(cfg: &Cfg) -> Result<Box<dyn Api>, String> {
     *DECOY.lock().unwrap_or_else(|e| e.into_inner()) = None;
     let main: Result<Box<dyn Api>, String> = match cfg.flavor {
         Flavor::Sync => recipe!(CacheBuilder, Cache).finalize().map(|c| Box::new(c) as Box<dyn Api>).map_err(|e| format!("{:?}", e)),
+        #[cfg(feature = "async_flavour")]
         Flavor::Async | Flavor::AsyncLocal => recipe!(AsyncCacheBuilder, AsyncCache).finalize(async_spawner).map(|c| Box::new(c) as Box<dyn Api>).map_err(|e| format!("{:?}", e)),
+        #[cfg(not(feature = "async_flavour"))]
+        Flavor::Async | Flavor::AsyncLocal => Err("the async flavour is not part of this build (default feature set)".to_string()),
     };
     if cfg.decoy && main.is_ok() {
         build_decoy(cfg);
@@ -1241,6 +1266,9 @@ fn build_decoy(cfg: &Cfg) {
             .finalize()
             .ok()
             .map(|c| Box::new(c) as Box<dyn Api>),
+        #[cfg(not(feature = "async_flavour"))]
+        _ => None,
+        #[cfg(feature = "async_flavour")]
         _ => AsyncCacheBuilder::<u64, Val, HKb>::new_with_key_builder(1000, 1_000_000, HKb(KeyMode::Transparent))
             .set_buffer_size(64)
             .set_cleanup_duration(ms)
@@ -1395,6 +1423,10 @@ pub fn do_op(api: &dyn Api, client: usize, idx: usize, op: &Op) {
             rt::wall_step_back_ns(*ns);
             Res::Unit
         }
+        Op::WallStepFwd { ns } => {
+            rt::wall_step_fwd_ns(*ns);
+            Res::Unit
+        }
         Op::Yield => {
             rt::yield_now();
             Res::Unit
@@ -1406,6 +1438,15 @@ pub fn do_op(api: &dyn Api, client: usize, idx: usize, op: &Op) {
         Op::StallSelf { ns, skip } => {
             rt::stall_self_later(*ns, *skip);
             Res::Unit
+        }
+        Op::InsertMany { base, n } => {
+            let mut ok = 0i64;
+            for i in 0..*n {
+                if let Ok(true) = api.insert(base + i, Val { id: 50_000_000 + val_id(client, idx) + i, key: base + i, size: 1 }, 1, dur_of_ttl(0)) {
+                    ok += 1;
+                }
+            }
+            Res::Num(ok)
         }
         Op::GetMany { k, n } => {
             let mut hits = 0i64;
@@ -1498,6 +1539,7 @@ struct Shared {
 /// The body of task 0.
 pub fn run_plan(plan: &Plan) {
     stretto_sim_rt::obs::set_sink(Box::new(obs_sink));
+    stretto_sim_rt::obs::set_muted(plan.has_tag("mega_admissions"));
     stretto_sim_rt::obs::TICK_EVENTS.store(plan.has_tag("tick_events"), Ordering::SeqCst);
     *SNAP_CTX.lock().unwrap_or_else(|e| e.into_inner()) = if plan.has_tag("snap_at_wait") { Some((plan.universe.clone(), plan.cfg.keys.clone())) } else { None };
     let kb = HKb(plan.cfg.keys.clone());
